@@ -440,8 +440,12 @@ func configure(r *ev.Run, l layout) func() {
 		}
 	}
 	if l.order >= 2 {
-		// two Setup calls instead of one
+		// two Setup calls instead of one, and the generators are used under the intermediate layout
 		snowflake.Setup(ordered[:1]...)
+		if n, err := snowflake.NewNode(1, 0); err == nil {
+			_ = n.Generate()
+			_, _, _ = snowflake.IDFields(n.Generate())
+		}
 		snowflake.Setup(ordered[1:]...)
 	} else {
 		snowflake.Setup(ordered...)
